@@ -1,0 +1,25 @@
+//go:build verif
+// +build verif
+
+package cachekv
+
+// SimYield, when set (only the /verif simulator sets it), is called before every
+// acquisition of a Store's mutex: the simulator parks the calling goroutine there
+// and decides who proceeds.
+var SimYield func(store *Store, op string)
+
+func simYield(store *Store, op string) {
+	if SimYield != nil {
+		SimYield(store, op)
+	}
+}
+
+// SimMutexFree reports whether the store's mutex is free right now. The simulator
+// calls it only while every client goroutine is parked.
+func (store *Store) SimMutexFree() bool {
+	if store.mtx.TryLock() {
+		store.mtx.Unlock()
+		return true
+	}
+	return false
+}
